@@ -2,6 +2,7 @@ import Driver.Codec
 import Driver.FromJson
 import TartModel.Impl.ExecT
 import TartModel.Impl.Subscription
+import TartModel.Spec.Validation
 import TartModel.Generated.Scalars
 /- Line-protocol driver: one JSON request per line on stdin, one JSON answer per line on stdout. -/
 open Lean Tart Tart.Codec Tart.FromJson
@@ -103,6 +104,12 @@ def handle (j : Json) : Except String Json := do
       | none => Json.null
     pure (Json.mkObj [("responses", Json.arr (rs.map encodeResponse).toArray), ("source", sa),
                       ("refused", Json.bool (preflight 100000 S o doc opName vars).isSome)])
+  | "validate" =>
+    let S ← decodeSchema (← j.getObjVal? "schema")
+    let doc ← decodeDocument (← j.getObjVal? "doc")
+    let sv := Spec.V.violations .spec 2000 S doc
+    let ev := Spec.V.violations .engine 2000 S doc
+    pure (Json.mkObj [("spec", Json.arr (sv.map Json.str).toArray), ("engine", Json.arr (ev.map Json.str).toArray)])
   | "echo" => pure (Json.mkObj [("ok", encode (← decode (← j.getObjVal? "value")))])
   | _ => throw s!"unknown op {op}"
 
